@@ -141,6 +141,9 @@ class Repo:
                     raise AnalysisError(f"{rel}: does not parse: {e}") from e
                 self.modules[mod] = m
                 self._index(m)
+        if not os.environ.get("VERIF_NO_ALPHA"):
+            from . import normalise
+            self.call_forms = normalise.canonical_call_forms(self)
 
     def digest(self):
         return self._digest.hexdigest()[:16]
